@@ -49,8 +49,9 @@ def readTree (g : DirGraph) (fuel root : Nat) : Except Err Nat := fillDir g fuel
 
 /--
 The walk of `dir_rec.c` `next()` (:97-171), as the depth-first recursion its explicit stack implements.
-`stack` = inode references of the directories on `it->top …` below the start directory (the repaired code keeps
-them in `dir_stack_t`; the start directory itself has no recorded identity).  `fixed = false`: no check at all.
+`stack` = inode references of the directories entered below the start directory (the repaired code keeps them
+in the squashfs iterator, `dir_iterator.c: it_open_subdir`, `fixes/C05-dir-rec-loop.patch`; the start directory
+itself has no recorded identity).  `fixed = false`: no check at all.
 -/
 def dirRec (fixed : Bool) (g : DirGraph) : Nat → List Nat → Nat → Except Err Nat
   | 0, _, _ => .error .fuel
